@@ -139,6 +139,8 @@ class PusTmSecondaryHeader:
         """
         if len(data) < cls.MIN_LEN:
             raise BytesTooShortError(cls.MIN_LEN, len(data))
+        if len(data) < cls.MIN_LEN + timestamp_len:
+            raise BytesTooShortError(cls.MIN_LEN + timestamp_len, len(data))
         secondary_header = cls.__empty()
         current_idx = 0
         secondary_header.pus_version = (data[current_idx] & 0xF0) >> 4
@@ -311,8 +313,9 @@ class PusTm(AbstractPusTm):
         )
         if expected_packet_len > len(data):
             raise BytesTooShortError(expected_packet_len, len(data))
+        # The secondary header has to fit between the primary header and the CRC16
         pus_tm.pus_tm_sec_header = PusTmSecondaryHeader.unpack(
-            data=data[SPACE_PACKET_HEADER_SIZE:],
+            data=data[SPACE_PACKET_HEADER_SIZE : expected_packet_len - 2],
             timestamp_len=timestamp_len,
         )
         if (
